@@ -61,10 +61,19 @@ type c04Target struct {
 }
 
 type c04Cmd struct {
-	Op  string   `json:"op"` // "weight" (default), "add" (Sel = tags, W = fixed weight of the new target), "del"
+	Op  string   `json:"op"` // "weight" (default), "add" (Sel = tags, W = fixed weight of the new target), "del", "readd" (an instance of the route announced again: Id = its URL)
 	Svc string   `json:"svc"`
 	Sel []string `json:"sel"`
 	W   int64    `json:"w"`
+	Id  int      `json:"id"`
+}
+
+// c04Alt: the prescribed split under the "last announced weight wins" reading of a re-announcement
+type c04Alt struct {
+	Fk []int64  `json:"fk"`
+	Ew []c04Rat `json:"ew"`
+	Lo []int    `json:"lo"`
+	Hi []int    `json:"hi"`
 }
 
 type c04Rat struct {
@@ -80,6 +89,7 @@ type c04Case struct {
 	Ew   []c04Rat    `json:"ew"`
 	Lo   []int       `json:"lo"`
 	Hi   []int       `json:"hi"`
+	Alt  *c04Alt     `json:"alt,omitempty"`
 	// replay only
 	Src    string `json:"src,omitempty"`
 	Warmup int    `json:"warmup,omitempty"`
@@ -125,6 +135,14 @@ func c04Script(c *c04Case, base int) string {
 		case "add":
 			fmt.Fprintf(&b, "route add %s %s %s://10.0.%d.%d:%d/", w.Svc, c.Src, scheme, base, added+1, 8000+added)
 			added++
+			if w.W != 0 {
+				fmt.Fprintf(&b, " weight %s", c04Weight(w.W, c.Unit))
+			}
+			if len(w.Sel) > 0 {
+				fmt.Fprintf(&b, " tags \"%s\"", c04Tags(w.Sel))
+			}
+		case "readd": // the same service, URL and tags as an earlier line, the weight as announced now
+			fmt.Fprintf(&b, "route add %s %s %s://10.0.%d.%d:%d/", w.Svc, c.Src, scheme, base, w.Id, 8000+w.Id-1)
 			if w.W != 0 {
 				fmt.Fprintf(&b, " weight %s", c04Weight(w.W, c.Unit))
 			}
@@ -177,7 +195,7 @@ var c04RndMu sync.Mutex
 
 type c04Stats struct {
 	cases, weights, cycles, picks, rndPicks, nontrivial, viaCmd, resets, multi, multiPicks int64
-	bigProbes, bigSkipped, histories                                                      int64
+	bigProbes, bigSkipped, histories, readds, lastWins                                    int64
 }
 
 type c04Failer func(clause, picker, format string, a ...any)
@@ -193,7 +211,6 @@ type c04Route struct {
 
 // c04Static checks weights and ring of the route built for c and returns the handle for picking.
 func c04Static(tbl Table, c *c04Case, cache *GlobCache, st *c04Stats, fail c04Failer) *c04Route {
-	n := len(c.Fk)
 	host, path := c04Split(c.Src)
 	var r *Route
 	for _, x := range tbl[host] {
@@ -201,6 +218,16 @@ func c04Static(tbl Table, c *c04Case, cache *GlobCache, st *c04Stats, fail c04Fa
 			r = x
 		}
 	}
+	// an instance announced again with another weight: the specification prescribes the split for
+	// both admissible sets of targets (a further entry: Fk; the last weight replaces the old one:
+	// Alt.Fk) - the route is held to the one whose targets it has
+	if a := c.Alt; r != nil && a != nil && c04ReAdd(c) && len(r.Targets) != len(c.Fk) && len(r.Targets) == len(a.Fk) &&
+		len(a.Ew) == len(a.Fk) && len(a.Lo) == len(a.Fk) && len(a.Hi) == len(a.Fk) {
+		c.Alt = &c04Alt{Fk: c.Fk, Ew: c.Ew, Lo: c.Lo, Hi: c.Hi} // (kept: a replay chooses again)
+		c.Fk, c.Ew, c.Lo, c.Hi = a.Fk, a.Ew, a.Lo, a.Hi
+		atomic.AddInt64(&st.lastWins, 1)
+	}
+	n := len(c.Fk)
 	if r == nil || len(r.Targets) != n {
 		fail("structure", "", "route %s missing or has the wrong number of targets", c.Src)
 		return nil
@@ -327,6 +354,16 @@ func c04History(c *c04Case) bool {
 	return false
 }
 
+// c04ReAdd: is an instance of the route announced again in the script?
+func c04ReAdd(c *c04Case) bool {
+	for _, w := range c.Cmds {
+		if w.Op == "readd" {
+			return true
+		}
+	}
+	return false
+}
+
 func c04Run(c *c04Case, doPicks bool, cache *GlobCache, st *c04Stats) {
 	via := "add"
 	if len(c.Cmds) > 0 {
@@ -336,6 +373,9 @@ func c04Run(c *c04Case, doPicks bool, cache *GlobCache, st *c04Stats) {
 		}
 		if c04History(c) {
 			via = "history"
+		}
+		if c04ReAdd(c) {
+			via = "history-reannounced"
 		}
 	}
 	fail := func(clause, pk, format string, a ...any) {
@@ -499,7 +539,11 @@ func TestVerifC04(t *testing.T) {
 			for j := range jobs {
 				c := j.c
 				always := len(c.Fk) <= 3 && len(c.Cmds) == 0
-				c04Run(c, always || (j.n+seed)%pickEvery == 0, cache, &st)
+				every := pickEvery
+				if c04ReAdd(c) && every > 8 {
+					every = 8 // re-announced instances: a denser slice of the pick cycles
+				}
+				c04Run(c, always || (j.n+seed)%every == 0, cache, &st)
 			}
 		}()
 	}
@@ -530,6 +574,9 @@ func TestVerifC04(t *testing.T) {
 			if c04History(&c) {
 				st.histories++
 			}
+			if c04ReAdd(&c) {
+				st.readds++
+			}
 		}
 		if c.Src == "" { // not a replay: choose the spelling and the cursor position by seed
 			c.Src = srcs[int((n+seed)%int64(len(srcs)))]
@@ -548,7 +595,7 @@ func TestVerifC04(t *testing.T) {
 		t.Fatal(err)
 	}
 	verifx.Summary(map[string]any{"cases": n, "weights": st.weights, "cycles": st.cycles, "picks": st.picks, "rnd_picks": st.rndPicks,
-		"distinct_nontrivial": st.nontrivial, "via_weight_cmd": st.viaCmd, "reset_last": st.resets, "histories": st.histories, "samples": samples,
+		"distinct_nontrivial": st.nontrivial, "via_weight_cmd": st.viaCmd, "reset_last": st.resets, "histories": st.histories, "reannounced": st.readds, "last_wins": st.lastWins, "samples": samples,
 		"large_count_probes": st.bigProbes, "large_count_skipped": st.bigSkipped})
 }
 
